@@ -66,6 +66,8 @@ pub proof fn lemma_nested_congruence(f: String, a: Expression, b: Expression, id
 
 // A nested block over an array of objects only looks at sem3 of the block on each element -- except for the
 // all()-of-several-blocks and Matrix forms, which are syntactic; those are excluded here (coalesce returns them unchanged).
+#[verifier::spinoff_prover]
+#[verifier::rlimit(100)]
 pub proof fn lemma_nested_array_congruence(a: Expression, b: Expression, ids: Ids, arr: ArrM)
     requires forall|d2: DocM| #[trigger] sem3(a, ids, d2) == sem3(b, ids, d2),
     ensures (!(a is Match) && !(b is Match)) ==> sem_nested_array(a, ids, arr) == sem_nested_array(b, ids, arr),
@@ -115,6 +117,8 @@ pub open spec fn sem_same(a: Expression, b: Expression) -> bool {
     forall|ids: Ids, d: DocM| #[trigger] sem3(a, ids, d) == sem3(b, ids, d)
 }
 
+pub open spec fn leafish(e: Expression) -> bool { e is Identifier || e is Search || e is Matrix || is_leaf(e) }
+
 // every group in the tree is an and- or an or-group (what the parser and the optimiser produce)
 pub open spec fn groups_ok(e: Expression) -> bool
     decreases e,
@@ -122,7 +126,8 @@ pub open spec fn groups_ok(e: Expression) -> bool
     match e {
         Expression::BooleanGroup(op, g) => (op == BoolSym::And || op == BoolSym::Or) && forall|i: int| 0 <= i < g.len() ==> groups_ok(#[trigger] g[i]),
         Expression::BooleanExpression(l, op, r) => if is_cmp(op) { is_term(*l) && is_term(*r) } else { groups_ok(*l) && groups_ok(*r) },
-        Expression::Match(_, x) => groups_ok(*x),
+        // all()/of() count over a group, or look at one identifier / search / matrix / field (what the parsers produce)
+        Expression::Match(_, x) => groups_ok(*x) && (*x is BooleanGroup || leafish(*x)),
         Expression::Negate(x) => groups_ok(*x),
         Expression::Nested(_, x) => groups_ok(*x),
         _ => true,
@@ -350,5 +355,34 @@ pub proof fn lemma_or_commute(a: Expression, b: Expression)
     let y = Expression::BooleanExpression(Box::new(b), BoolSym::Or, Box::new(a));
     assert forall|ids: Ids, d: DocM| #[trigger] sem3(x, ids, d) == sem3(y, ids, d) by {
         lemma_binary_commute(sem3(a, ids, d), sem3(b, ids, d));
+    }
+}
+
+// all()/of() over a group whose entries are replaced by equivalent ones (the group itself is kept)
+#[verifier::spinoff_prover]
+#[verifier::rlimit(100)]
+pub proof fn lemma_match_group_same(m: Match, op: BoolSym, g: Vec<Expression>, s: Vec<Expression>)
+    requires
+        s@.len() == g@.len(),
+        forall|j: int| 0 <= j < g@.len() ==> sem_same(#[trigger] s@[j], g@[j]),
+    ensures
+        sem_same(Expression::Match(m, Box::new(Expression::BooleanGroup(op, s))), Expression::Match(m, Box::new(Expression::BooleanGroup(op, g)))),   // P:C01
+{
+    reveal(sem_same);
+    let i0 = Expression::BooleanGroup(op, g);
+    let i1 = Expression::BooleanGroup(op, s);
+    let e0 = Expression::Match(m, Box::new(i0));
+    let e1 = Expression::Match(m, Box::new(i1));
+    assert forall|ids: Ids, d: DocM| #[trigger] sem3(e1, ids, d) == sem3(e0, ids, d) by {
+        lemma_sems_defined(op, g, ids, d);
+        lemma_sems_defined(op, s, ids, d);
+        let s0 = sems(g, ids, d, i0);
+        let s1 = sems(s, ids, d, i1);
+        assert forall|j: int| 0 <= j < g.len() implies s1[j] == s0[j] by {
+            assert(sem_same(s@[j], g@[j]));
+            assert(sem3(s@[j], ids, d) == sem3(g@[j], ids, d));
+        }
+        assert(s1 =~= s0);
+        assert(match_target(i0, ids) == i0 && match_target(i1, ids) == i1);
     }
 }
